@@ -6,15 +6,14 @@ The five loops are the loops of `Jacoco.lean` with a `Cost` next to the outcome
 (`…LoopC … = (outcome, cost)`; erasing the cost gives the original loop: `…LoopC_fst`,
 Lemmas/TextCostJacoco.lean). The cost is accumulated also on the paths that end in an error.
 * `reads`  – `read_event_into` calls (every event once, plus the read that returns `Eof`);
-* `attrs`  – attributes yielded by quick-xml's attribute iterator (`get_xml_attribute` restarts the
-             iteration for every attribute it is asked for: `class` → name, sourcefilename;
-             `method` → name, line; `counter` → type, covered);
-* `dupCmp` – key comparisons of the iterator's duplicate check: quick-xml (0.37,
-             `IterState::check_for_duplicates`) keeps the key ranges already seen in a `Vec` and
-             searches it linearly for every new attribute, so the i-th attribute of an element costs
-             i comparisons. The `seen` list of the model IS that vector. This is the one place
-             where the reader is quadratic: in the number of attributes of ONE element
-             (finding C14-jacoco-attribute-duplicate-check-quadratic);
+* `attrs`  – attributes yielded by quick-xml's attribute iterator. Since /repo ae885a6 the reader
+             iterates with `.with_checks(false)`: no comparison with the earlier attributes of the
+             element (that check was quadratic in the attributes of one element – former finding
+             C14-jacoco-attribute-duplicate-check-quadratic). What remains is linear:
+             `get_xml_attribute` restarts the iteration for every attribute it is asked for
+             (`class` → name, sourcefilename; `method` → name, line; `counter` → type, covered), so
+             an element costs at most (look-ups) × (its attributes), look-ups ≤ 2. The counters
+             below are upper bounds of what the code does (they do not stop at a repeated name);
 * `mapOps` – `BTreeMap`/`FxHashMap` insertions, an upper bound: 1 per `<line>`, 2 per `<method>`
              (`functions.insert`, and at most one re-insertion by `functions.extend` when the file
              already has a record), 1 per `<class>`/`<sourcefile>` (`results_map.entry`);
@@ -30,50 +29,43 @@ open Grcov AList
 structure Cost where
   reads : Nat := 0
   attrs : Nat := 0
-  dupCmp : Nat := 0
   mapOps : Nat := 0
   alloc : Nat := 0
 deriving DecidableEq, Repr
 
 def Cost.add (x y : Cost) : Cost :=
-  ⟨x.reads + y.reads, x.attrs + y.attrs, x.dupCmp + y.dupCmp, x.mapOps + y.mapOps, x.alloc + y.alloc⟩
+  ⟨x.reads + y.reads, x.attrs + y.attrs, x.mapOps + y.mapOps, x.alloc + y.alloc⟩
 
 /-- component-wise order -/
 def Cost.le (x y : Cost) : Prop :=
-  x.reads ≤ y.reads ∧ x.attrs ≤ y.attrs ∧ x.dupCmp ≤ y.dupCmp ∧ x.mapOps ≤ y.mapOps ∧ x.alloc ≤ y.alloc
+  x.reads ≤ y.reads ∧ x.attrs ≤ y.attrs ∧ x.mapOps ≤ y.mapOps ∧ x.alloc ≤ y.alloc
 
 /-- put a cost in front of an instrumented computation -/
 def withCost {α : Type} (c : Cost) (p : α × Cost) : α × Cost := (p.1, c.add p.2)
 
 def tick : Cost := { reads := 1 }
 
-/-- cost of `get_xml_attribute(.., key)`: one pass over the attributes up to the match, the
-duplicate or the end; `seen` = the keys the iterator has already yielded -/
-def getAttrCostAux (key : Name) : List Name → List Attr → Cost
-  | _, [] => {}
-  | seen, (k, _) :: rest =>
-    let c : Cost := { attrs := 1, dupCmp := seen.length }
-    if k ∈ seen then c
-    else if k = key then c
-    else c.add (getAttrCostAux key (k :: seen) rest)
+/-- cost of `get_xml_attribute(.., key)`: one pass over the attributes up to the first match -/
+def getAttrCost (key : Name) : List Attr → Cost
+  | [] => {}
+  | (k, _) :: rest =>
+    if k = key then { attrs := 1 } else ({ attrs := 1 } : Cost).add (getAttrCost key rest)
 
-def getAttrCost (key : Name) (attrs : List Attr) : Cost := getAttrCostAux key [] attrs
-
-/-- cost of the `for a in e.attributes()` loop of the `<line>` arm -/
-def lineAttrsCost : List Name → List Attr → Cost
-  | _, [] => {}
-  | seen, (k, v) :: rest =>
-    let c : Cost := { attrs := 1, dupCmp := seen.length }
-    if k ∈ seen then c
-    else if k = sCi ∨ k = sCb ∨ k = sMb then
+/-- cost of the `for a in e.attributes()` loop of the `<line>` arm: every attribute up to the first
+value that does not parse -/
+def lineAttrsCost : List Attr → Cost
+  | [] => {}
+  | (k, v) :: rest =>
+    let c : Cost := { attrs := 1 }
+    if k = sCi ∨ k = sCb ∨ k = sMb then
       match parseUnsigned U64MAX v with
-      | some _ => c.add (lineAttrsCost (k :: seen) rest)
+      | some _ => c.add (lineAttrsCost rest)
       | none => c
     else if k = sNr then
       match parseUnsigned U32MAX v with
-      | some _ => c.add (lineAttrsCost (k :: seen) rest)
+      | some _ => c.add (lineAttrsCost rest)
       | none => c
-    else c.add (lineAttrsCost (k :: seen) rest)
+    else c.add (lineAttrsCost rest)
 
 /-- what the `<line>` arm does after the attribute loop -/
 def commitCost (a : LineAcc) : Cost :=
@@ -91,7 +83,7 @@ def sourcefileLoopC (cap : Nat) :
     match e with
     | .start n a =>
       if localName n = sLine then
-        withCost (lineAttrsCost [] a) <|
+        withCost (lineAttrsCost a) <|
         match lineAttrs [] a {} with
         | .ok la =>
           (match commitLine cap acc la with
@@ -271,22 +263,22 @@ def lineAlloc : XmlEvent → Nat
 
 /-- the most one event can cost, whichever loop reads it -/
 def evMax (e : XmlEvent) : Cost :=
-  { reads := 1, attrs := 2 * (evAttrs e).length, dupCmp := (evAttrs e).length * (evAttrs e).length,
-    mapOps := 2, alloc := lineAlloc e }
+  { reads := 1, attrs := 2 * (evAttrs e).length, mapOps := 2, alloc := lineAlloc e }
 
 def sumMax : List XmlEvent → Cost
   | [] => {}
   | e :: r => (evMax e).add (sumMax r)
 
 
-/-! ### the witness family of the quadratic duplicate check -/
+/-! ### witness families -/
 
-/-- the 2^w attribute names of length w over {a, b} -/
+/-- the 2^w names of length w over {a, b} -/
 def abKeys : Nat → List Name
   | 0 => [[]]
   | w + 1 => (abKeys w).map (97 :: ·) ++ (abKeys w).map (98 :: ·)
 
-/-- `<package aa..a="" … bb..b="" name="p">`: 2^w + 1 attributes, the one the reader looks for last -/
+/-- `<package aa..a="" … bb..b="" name="p">`: 2^w + 1 attributes, the one the reader looks for last
+(the family on which the removed duplicate check was quadratic; now 2^w + 1 attribute visits) -/
 def manyAttrs (w : Nat) : List Attr := (abKeys w).map (fun k => (k, [])) ++ [(sName, [112])]
 
 /-- `<package …2^w attributes… name="p"></package>` -/
